@@ -27,6 +27,17 @@ def run(rep, tier):
     common.guarded(rep, "C08.3", c08_3, rep, ix, G)
     common.guarded(rep, "C08.4", c08_4, rep, ix)
     common.guarded(rep, "C08.5", c08_5, rep, ix)
+    # the formula inside the transform is what _expression builds from the symbols: the operator semantics (for every operand kind,
+    # symbols included) are a necessary part of "computing the written formula"
+    from . import c03
+    from ..py.ctxtypes import ContextClasses
+    M = gm.Model(rep)
+    cc = ContextClasses(M.src["py_parser"])
+    br = common.guarded(rep, "C03.2", c03.c03_2, rep, ix, M)
+    if br:
+        common.guarded(rep, "C03.3", c03.c03_3, rep, ix, M, cc, br)
+        common.guarded(rep, "C03.8", c03.c03_8, rep, ix, M, cc, br)
+    common.guarded(rep, "C03.4", c03.c03_4, rep, ix, M)
 
 
 def c08_1(rep, ix, G):
@@ -96,6 +107,12 @@ def c08_4(rep, ix):
     fn = f.node
     sites = wrap_sites(fn)
     slots = {}
+    extracted = set()
+    for a in walk_shallow(fn):
+        if isinstance(a, ast.Assign) and isinstance(a.targets[0], ast.Tuple) and "_get_arguments(" in u(a.value):
+            extracted |= {u(x) for x in a.targets[0].elts}
+    if not extracted:
+        raise Inconclusive("exitStatement: unpacking of _get_arguments not recognised")
     for st in sites:
         cont = u(st.targets[0].value)
         loops = [l for l in walk_shallow(fn) if isinstance(l, ast.For) and any(x is st for x in ast.walk(l))]
@@ -110,6 +127,11 @@ def c08_4(rep, ix):
         elif it == "%s.items()" % cont:
             slot, var = "keyword", u(l.target.elts[1])
             keyok = u(st.targets[0].slice) == u(l.target.elts[0])
+        elif cont not in extracted:
+            # a transform kept in some other container: the object that reaches the operation is no longer built at the point of wrapping
+            rep.bad(R, ix.site(f, st), "a RegRefTransform is constructed only as the replacement of the argument it wraps", "`%s` keeps the transform in `%s` (cached / shared object)" % (
+                " ".join(u(st).split())[:70], cont), key="cache|" + cont)
+            continue
         else:
             raise Inconclusive("exitStatement: wrapping loop `for ... in %s` not recognised" % it)
         slots[slot] = (st, l, var)
